@@ -124,10 +124,10 @@ def make_cases(ctx, rng):
     pipe = [p for p in run_tlc("Pipeline", "Pipeline_gen.cfg", workers=1).prints if p and p[0] == "CASE"]
     if len(pipe) < 100:
         raise MachineryError("Pipeline.tla generated only %d configurations" % len(pipe))
-    ncli = 24 if ctx.quick else 400
+    ncli = 16 if ctx.quick else 400
     for j, k in enumerate(rng.permutation(len(pipe))[:ncli]):
         _, inputs, aggregate, decoys, rollup, ragged = pipe[int(k)]
-        cases.append({"kind": "cli", "files": [{"dir": d, "stem": st, "n": int(rng.choice([300, 400])), "seed": int(rng.integers(1, 10 ** 6)),
+        cases.append({"kind": "cli", "files": [{"dir": d, "stem": st, "n": int(rng.choice([220, 280])), "seed": int(rng.integers(1, 10 ** 6)),
                                                 "ragged": bool(rg)} for (d, st), rg in zip(inputs, ragged)],
                       "aggregate": bool(aggregate), "decoys": True, "rollup": bool(rollup), "dedup": bool(j % 3),
                       "file_root": "xp" if j % 4 == 0 else None, "folds": 2 + j % 2, "workers": 1 + j % 2,
@@ -144,6 +144,9 @@ def run_case(case):
             return trs
         if c["kind"] == "cli":
             trs, info = cli.run_cli(c)
+            if trs and any(m in trs[0]["raised"] for m in ("Failed to calibrate scores", "No PSMs found below", "No PSMs accepted")):
+                # brew stopped with an explicit error (C11 / training): there are no result files to judge
+                return [{"skipped": trs[0]["raised"][:80]}]
             for t in trs:
                 t["equal_stems"] = bool(info["equal_stems"])
             return trs
@@ -230,6 +233,9 @@ def run(ctx):
     results = pmap(lambda i: run_case(cases[i]), len(cases))
     traces, owner = [], []
     for ci, trs in enumerate(results):
+        if trs and "skipped" in trs[0]:
+            ctx.cov["cli_runs_stopped_by_explicit_brew_error"] = ctx.cov.get("cli_runs_stopped_by_explicit_brew_error", 0) + 1
+            continue
         for t in trs:
             if "harness_error" in t:
                 raise MachineryError("driver failed on case %d: %s" % (ci, t["harness_error"]))
